@@ -123,7 +123,7 @@ abbrev Str := List Char
 inductive STerm
   | iri (s : Str)
   | bnode (l : Str)
-  | lit (n : Nat)          -- literals are opaque here
+  | lit (lex : Str) (tag : Nat)   -- lexical form + opaque datatype/language tag; the lexical form may LOOK like an IRI
   deriving DecidableEq, Repr
 
 abbrev STriple := STerm × STerm × STerm
@@ -164,13 +164,18 @@ def isRdflibSkolem (U : UrlOps) (u : Str) : Bool :=
 def isExternalSkolem (U : UrlOps) (u : Str) : Bool :=
   rfindZero skolemGenid (U.path u)
 
-/-- `BNode.skolemize(authority=None, basepath=None)` -/
-def skolemizeLabel (U : UrlOps) (l : Str) : Str := U.join defaultAuthority (rdflibSkolemGenid ++ l)
+/-- `BNode.skolemize(authority, basepath)` -/
+def skolemizeLabelAt (U : UrlOps) (auth base : Str) (l : Str) : Str := U.join auth (base ++ l)
 
-/-- `do_skolemize2` on one subject / object term -/
-def skTerm (U : UrlOps) : STerm → STerm
-  | .bnode l => .iri (skolemizeLabel U l)
+/-- `BNode.skolemize(authority=None, basepath=None)` -/
+def skolemizeLabel (U : UrlOps) (l : Str) : Str := skolemizeLabelAt U defaultAuthority rdflibSkolemGenid l
+
+/-- `do_skolemize2` on one subject / object term (literals and IRIs untouched) -/
+def skTermAt (U : UrlOps) (auth base : Str) : STerm → STerm
+  | .bnode l => .iri (skolemizeLabelAt U auth base l)
   | t => t
+
+def skTerm (U : UrlOps) : STerm → STerm := skTermAt U defaultAuthority rdflibSkolemGenid
 
 /-- `do_de_skolemize2` on one subject / object term; `fresh` = the `skolems` dict + `BNode()` -/
 def deskTerm (U : UrlOps) (fresh : Str → Str) : STerm → STerm
@@ -180,13 +185,57 @@ def deskTerm (U : UrlOps) (fresh : Str → Str) : STerm → STerm
     else .iri u
   | t => t
 
-/-- `Graph.skolemize()` — subject and object only, predicate untouched -/
+/-- `Graph.skolemize(authority=…, basepath=…)` — subject and object only, predicate untouched -/
+def skolemizeAt (U : UrlOps) (auth base : Str) (g : SGraph) : SGraph :=
+  g.map (fun t => (skTermAt U auth base t.1, t.2.1, skTermAt U auth base t.2.2))
+
+/-- `Graph.skolemize()` -/
 def skolemize (U : UrlOps) (g : SGraph) : SGraph :=
   g.map (fun t => (skTerm U t.1, t.2.1, skTerm U t.2.2))
 
 /-- `Graph.de_skolemize()` -/
 def deSkolemize (U : UrlOps) (fresh : Str → Str) (g : SGraph) : SGraph :=
   g.map (fun t => (deskTerm U fresh t.1, t.2.1, deskTerm U fresh t.2.2))
+
+/-! ### the code as it runs: `URIRef.de_skolemize` consults the module-level dict `skolems`
+    (`if bnode_id in skolems: return skolems[bnode_id] else: retval = BNode(); skolems[bnode_id] = retval`).
+    State = the dict (entries are only ever ADDED) and a counter standing for the `uuid4` supply;
+    `mint k` is the label of the k-th fresh `BNode()`. -/
+
+abbrev SkCache := List (Str × Str)
+
+def clookup : SkCache → Str → Option Str
+  | [], _ => none
+  | (k, v) :: m, x => if k = x then some v else clookup m x
+
+structure SkState where
+  cache : SkCache
+  next : Nat
+
+def deskTermSt (U : UrlOps) (mint : Nat → Str) (st : SkState) : STerm → STerm × SkState
+  | .iri u =>
+    if isRdflibSkolem U u then (.bnode ((U.path u).drop rdflibSkolemGenid.length), st)
+    else if isExternalSkolem U u then
+      match clookup st.cache u with
+      | some l => (.bnode l, st)
+      | none => (.bnode (mint st.next), ⟨(u, mint st.next) :: st.cache, st.next + 1⟩)
+    else (.iri u, st)
+  | t => (t, st)
+
+/-- `Graph.de_skolemize()` triple by triple, subject then object, threading the dict -/
+def deSkolemizeSt (U : UrlOps) (mint : Nat → Str) : SkState → SGraph → SGraph × SkState
+  | st, [] => ([], st)
+  | st, t :: g =>
+    let r1 := deskTermSt U mint st t.1
+    let r2 := deskTermSt U mint r1.2 t.2.2
+    let rest := deSkolemizeSt U mint r2.2 g
+    ((r1.1, t.2.1, r2.1) :: rest.1, rest.2)
+
+/-- the label map a dict stands for (`dflt` where the dict has no entry) -/
+def SkCache.fn (c : SkCache) (dflt : Str → Str) (u : Str) : Str :=
+  match clookup c u with
+  | some l => l
+  | none => dflt u
 
 /-! concrete `urllib.parse` for IRIs of the shape `scheme://authority/path[?query][#fragment]`
     (the driver's instance; the theorems are about an arbitrary `UrlOps` with a stated contract) -/
